@@ -50,7 +50,10 @@ Scenario == [prop |-> "C05", class |-> (IF ws = 0 THEN "" ELSE "rnd/") \o "keys=
              keys |-> [i \in 1 .. Len(keys) |-> [col |-> keys[i].col, desc |-> (keys[i].dir = "desc")]],
              formula |-> IF wh THEN [f |-> "atom", a |-> WhereAtom] ELSE [f |-> "atom", a |-> A1("size", "gte", IntL(0), "")],
              \* (date keys are sorted under a clock that says 29 February: the comparison must not depend on today's date)
-             env |-> [tz |-> "UTC", cwd |-> 0, fake_epoch |-> IF keys[1].col = "modified" THEN 1456747200 ELSE 0 - 1],
+             \* (and, when no key takes a date apart, in a zone with daylight saving time: a time in the repeated hour is a time like any other)
+             env |-> [tz |-> IF keys[1].col = "modified" /\ \A i \in 1 .. Len(keys) : keys[i].col \notin {"day(modified)", "dow(modified)", "year(modified)"}
+                             THEN "EST5EDT,M3.2.0,M11.1.0" ELSE "UTC",
+                      cwd |-> 0, fake_epoch |-> IF keys[1].col = "modified" THEN 1456747200 ELSE 0 - 1],
              runs |-> << [tag |-> "plain", ncols |-> NCols,
                           argv |-> << "select " \o SelectText \o " from '.'" \o WhereText \o " into list" >>],
                          [tag |-> "ord", ncols |-> NCols,
